@@ -126,6 +126,15 @@ def match(p, n, b):
                 b.update(bb)
                 return True
         return False
+    if isinstance(p, ast.Dict) and len(p.keys) == len(n.keys) and all(
+            isinstance(k, ast.Constant) for k in p.keys) and all(
+            isinstance(k, ast.Constant) for k in n.keys):
+        # dictionary display with constant keys: modulo the order of entries
+        pk = {k.value: v for k, v in zip(p.keys, p.values)}
+        nk = {k.value: v for k, v in zip(n.keys, n.values)}
+        if len(pk) != len(p.keys) or set(pk) != set(nk):
+            return False
+        return all(match(pk[k], nk[k], b) for k in pk)
     if isinstance(p, ast.Call):
         if not match(p.func, n.func, b) or len(p.args) != len(n.args):
             return False
